@@ -96,7 +96,7 @@ func Solve(file string, timeoutS int, wantModel bool) SolveResult {
 	// race
 	type r struct {
 		st, out, name string
-		ms           int64
+		ms            int64
 	}
 	cctx, cancel := context.WithCancel(ctx)
 	defer cancel()
